@@ -8,7 +8,7 @@ namespace Qmc
 
 /-- the cursor facts `mutate_p` relies on at slot `p` -/
 structure CurOK (a : Cursor) (nv : Nat) (s : Slots) (p : Nat) : Prop where
-  hP : a.lastP = prevOcc (occ s) p
+  hP : a.lastP = prevOcc (occAt s) p
   hrel : ∀ v, v < nv → a.lastPRel v = prevRel s v p
   hvar : ∀ v, v < nv → a.lastVar ((a.varToSubvar v).getD 0) = (prevRel s v p).map (·.p)
 
@@ -20,22 +20,22 @@ theorem curOK_scan (nv : Nat) (s : Slots) (p u : Nat) : CurOK (cursorByScan nv s
     simp [Cursor.varToSubvar, cursorByScan, Cursor.lastVar, List.getElem?_map, List.getElem?_range hv]
 
 theorem occV_s1 (s0 : Slots) (p : Nat) (op : Op) (hsp : slotAt s0 p = none) (hpL : p < s0.length) (w : Nat) :
-    occV (s1 s0 p op) w = PI s0 p op.vars w := by
+    occVAt (s1 s0 p op) w = PI s0 p op.vars w := by
   unfold s1
   rw [occV_set s0 p (some op) w hpL]
   unfold PI
-  have hfalse : occV s0 w p = false := by unfold occV; rw [hsp]
+  have hfalse : occVAt s0 w p = false := by unfold occVAt; rw [hsp]
   by_cases hw : w ∈ op.vars
   · simp [hw, hasVar]
   · simp only [hw, if_false]
     have : hasVar (some op) w = false := by simpa [hasVar] using hw
     rw [this, upd_self_eq hfalse]
 
-theorem occV_s0_p (s0 : Slots) (p : Nat) (hsp : slotAt s0 p = none) (w : Nat) : occV s0 w p = false := by
-  unfold occV; rw [hsp]
+theorem occV_s0_p (s0 : Slots) (p : Nat) (hsp : slotAt s0 p = none) (w : Nat) : occVAt s0 w p = false := by
+  unfold occVAt; rw [hsp]
 
 theorem relcongr (s0 : Slots) (p : Nat) (op : Op) (hsp : slotAt s0 p = none) (w : Nat) (o : Option Nat)
-    (h : ∀ y, o = some y → occV s0 w y = true) :
+    (h : ∀ y, o = some y → occVAt s0 w y = true) :
     o.map (relAt s0 w) = o.map (relAt (s1 s0 p op) w) := by
   apply map_relAt_congr
   intro y hy e
@@ -53,7 +53,7 @@ theorem installLinks_canon (nv : Nat) (nb : Option Nat) (s0 : Slots) (p : Nat)
   congr 1
   unfold prevRel nextRel
   have hfalse := occV_s0_p s0 p hsp v
-  cases hprev : prevOcc (occV s0 v) p with
+  cases hprev : prevOcc (occVAt s0 v) p with
   | none =>
     simp only [Option.map_none]
     rw [varEnd_canon nv nb s0 v hv]
@@ -68,7 +68,7 @@ theorem installLinks_canon (nv : Nat) (nb : Option Nat) (s0 : Slots) (p : Nat)
   | some pp =>
     simp only [Option.map_some]
     have hpp := (prevOcc_lt hprev).2
-    unfold occV at hpp
+    unfold occVAt at hpp
     have hrp : (relAt s0 v pp).p = pp := rfl
     rw [hrp, getNode_canon]
     cases hs : slotAt s0 pp with
@@ -181,7 +181,7 @@ theorem install_var_canon (nv : Nat) (nb : Option Nat) (s0 : Slots) (p : Nat) (o
   have hc2g : c2.g = (canon nv nb s0).g := by
     rw [← hc2, FastOps.foldl_g _ (FastOps.installNextWrite_g p), FastOps.foldl_g _ (FastOps.installPrevWrite_g p)]
   have hL := hlen c2 hc2g
-  have hPI : ∀ w, PI s0 p op.vars.reverse w = occV (s1 s0 p op) w := by
+  have hPI : ∀ w, PI s0 p op.vars.reverse w = occVAt (s1 s0 p op) w := by
     intro w
     rw [occV_s1 s0 p op hsp hpL]
     unfold PI
@@ -246,10 +246,10 @@ theorem install_var_canon (nv : Nat) (nb : Option Nat) (s0 : Slots) (p : Nat) (o
       have hh : hasVar (some op) w = true := by simpa [hasVar] using hw
       rw [hh, ← this]
       unfold E2 E1 E0 canonVarEnd firstRel lastRel
-      generalize prevOcc (occV s0 w) p = A
-      generalize nextOcc (occV s0 w) s0.length p = B
-      generalize zipOpt ((firstOcc (occV s0 w) s0.length).map (relAt s0 w))
-        ((lastOcc (occV s0 w) s0.length).map (relAt s0 w)) = E
+      generalize prevOcc (occVAt s0 w) p = A
+      generalize nextOcc (occVAt s0 w) s0.length p = B
+      generalize zipOpt ((firstOcc (occVAt s0 w) s0.length).map (relAt s0 w))
+        ((lastOcc (occVAt s0 w) s0.length).map (relAt s0 w)) = E
       rcases A with _ | a0 <;> rcases B with _ | b0 <;> rcases E with _ | ⟨x, y⟩ <;> rfl
     · simp only [List.mem_reverse, hw, if_false]
       unfold E0 canonVarEnd firstRel lastRel
@@ -321,10 +321,10 @@ theorem install_canon (nv : Nat) (nb : Option Nat) (s0 : Slots) (p : Nat) (op : 
   exact FastOps.installG_canon nb s0 p op hsp hpL a ha.hP
 
 theorem occV_set_sameVars (s : Slots) (p : Nat) (old o : Op) (hsp : slotAt s p = some old)
-    (hv : old.vars = o.vars) (w : Nat) : occV (s.set p (some o)) w = occV s w := by
+    (hv : old.vars = o.vars) (w : Nat) : occVAt (s.set p (some o)) w = occVAt s w := by
   rw [occV_set s p (some o) w (slotAt_lt hsp)]
   apply upd_self_eq
-  unfold occV hasVar
+  unfold occVAt hasVar
   rw [hsp]
   simp only [hv]
 
@@ -345,7 +345,7 @@ theorem fastInstall_canon_full (nv : Nat) (nb : Option Nat) (s : Slots) (p : Nat
   have hpL := slotAt_lt hsp
   have hrel : relAt (s.set p (some o)) = relAt s := by
     funext w q; exact relAt_set_sameVars s p old o hsp hv w q
-  have hocc : ∀ w, occV (s.set p (some o)) w = occV s w := occV_set_sameVars s p old o hsp hv
+  have hocc : ∀ w, occVAt (s.set p (some o)) w = occVAt s w := occV_set_sameVars s p old o hsp hv
   apply FastOps.eq_of_g_v
   · rw [FastOps.fastInstall_g, FastOps.setOp_g, canon_g, canon_g]
     have := FastOps.fastInstall_canon nb s p old o hsp
